@@ -292,6 +292,13 @@ func coqEnv(allow, deny string, t *tables, ref *refRules) string {
 		vh.HxS(allow), vh.HxS(deny), t.coqIPTab(), t.coqCIDRTab(), ref.coq())
 }
 
+func stripZone(s string) string {
+	if i := strings.IndexByte(s, '%'); i >= 0 {
+		return s[:i]
+	}
+	return s
+}
+
 func ascii(ss ...string) bool {
 	for _, s := range ss {
 		for i := 0; i < len(s); i++ {
@@ -820,7 +827,8 @@ func main() {
 	}
 
 	// ---------------- 2. HTTPProxy.ServeHTTP ----------------
-	garbage := []string{"unknown", "_hidden", "1.2.3.4:80", "", "[::1]", "10.0.0", "fe80::1%eth0", "fe80::abcd%1", "for=1.2.3.4", "::ffff:1.2.3", "0x7f.1"}
+	garbage := []string{"unknown", "_hidden", "1.2.3.4:80", "", "[::1]", "10.0.0", "fe80::1%eth0", "fe80::abcd%1", "for=1.2.3.4", "::ffff:1.2.3", "0x7f.1",
+		"fe80::1%", "6.6.6.6%eth0", "10.1.2.3%1", "%eth0", "fe80::1%eth0%x", "2001:db8::42%en0"}
 	authNames := []string{"", "", "", "mybasic", "mybasic", "mybasic", "other", "nosuch", "MyBasic", " mybasic", "basic"}
 	type httpIn struct {
 		g        ruleGen
@@ -854,14 +862,14 @@ func main() {
 		refAdmit := true
 		if serr == nil {
 			split = vh.Some(vh.HxS(host))
-			tb.askIP(host)
+			// the code reads an address through route.parseIP: net.ParseIP of the text with
+			// everything from the first '%' cut; the table holds ParseIP's answer for that text
+			tb.askIP(stripZone(host))
 			askSem(host)
-			for i, v := range in.xff {
+			for _, v := range in.xff { // every field value (all header lines)
 				for _, e := range strings.Split(v, ",") {
 					e = strings.TrimSpace(e)
-					if i == 0 {
-						tb.askIP(e)
-					}
+					tb.askIP(stripZone(e))
 					askSem(e)
 				}
 			}
